@@ -627,6 +627,28 @@ Section Client.
     end.
 End Client.
 
+(* ---------- registry/remote/url.go: the URL a request is sent to ---------- *)
+(* scheme://host/v2/<repository>/... built by the C20 URL builders (Model/Reference.v); the mount
+   query is written verbatim (fmt.Sprintf), the digest of the upload PUT and the referrers page
+   size go through url.Values.Encode (':' escaped).  [sess_path id] is the Location the registry
+   model hands out for an upload session. *)
+Definition esc_colon (s : str) : str := flat_map (fun c => if c =? 58 then b "%3A" else [c]) s.
+
+Definition request_url (plain : bool) (host : str) (ref_page : N) (q : request) : str :=
+  let rf (x : str) := mkRef host (q_repo q) x in
+  (match q_ep q with
+   | EBlob d => url_blob plain (rf d)
+   | EManifest r => url_manifest plain (rf r)
+   | EUploads =>
+       url_upload plain (rf []) ++
+       match q_mount q with Some (d, from) => b "?mount=" ++ d ++ b "&from=" ++ from | None => [] end
+   | ESession id => url_upload plain (rf []) ++ dec_of_N id
+   | EReferrers d =>
+       url_referrers plain (rf d) ++ (if ref_page =? 0 then [] else b "?n=" ++ dec_of_N ref_page)
+   end)
+  (* the final PUT of an upload: the Location it was given plus the digest *)
+  ++ match q_digest q with Some d => b "?digest=" ++ esc_colon d | None => [] end.
+
 (* ---------- response corruption (harness: one field of one response) ---------- *)
 
 Inductive corruption :=
